@@ -2,6 +2,7 @@ package main
 
 import (
 	"fmt"
+	"strings"
 
 	"golang.org/x/tools/go/ssa"
 )
@@ -120,4 +121,31 @@ func strip2(v ssa.Value) ssa.Value {
 
 func fieldWritePred(key string) func(ssa.Instruction) bool {
 	return func(in ssa.Instruction) bool { return isFieldWrite(in, key) }
+}
+
+// releasesLike: the instruction is a call of one of the named release
+// methods, or a static call of a module function that calls one on every
+// path to its return (a wrapper such as closeRawConn(conn, p)); depth 2.
+func releasesLike(in ssa.Instruction, names ...string) bool {
+	return releasesLikeD(in, 2, names...)
+}
+
+func releasesLikeD(in ssa.Instruction, depth int, names ...string) bool {
+	if calleeNameIs(in, names...) {
+		return true
+	}
+	if depth <= 0 {
+		return false
+	}
+	ci, ok := in.(ssa.CallInstruction)
+	if !ok {
+		return false
+	}
+	callee := ci.Common().StaticCallee()
+	if callee == nil || callee.Blocks == nil || callee.Pkg == nil || !strings.HasPrefix(callee.Pkg.Pkg.Path()+"/", Mod) {
+		return false
+	}
+	w, _ := (&Cut{Fn: callee, Target: func(x ssa.Instruction) bool { _, isRet := x.(*ssa.Return); return isRet },
+		Sep: func(x ssa.Instruction) bool { return releasesLikeD(x, depth-1, names...) }}).Run(nil)
+	return w == ""
 }
